@@ -7,7 +7,8 @@
    - CFiles: a chart file list, a glob pattern with the real matcher's verdict per name, and
      what the real .Files object returned for Get / Lines / AsConfig / AsSecrets. *)
 From Coq Require Import List String Ascii Bool Arith ZArith Uint63.
-From Helm Require Import Common.Assoc Common.Strs Render.SortLemmas Render.Pipeline Render.PipelineInst Render.Files.
+From Helm Require Import Common.Assoc Common.Strs Values.Tree Render.SortLemmas Render.Pipeline Render.PipelineInst Render.Files
+     Render.Engine Render.Funcs Render.Mini Misc.PanicsRec.
 Import ListNotations.
 
 Inductive obs :=
@@ -15,7 +16,26 @@ Inductive obs :=
   | OSortErr (hooks : list hook) (blob : string)
   | OOk (manifest_text : string) (hooks : list hook) (notes : string).
 
+(* round 4: what the real engine.Render returned (rendered map sorted by name) *)
+Inductive robs := RParseErr | RExecErr | ROut (rendered : list (string * string)).
+
+(* round 4: one call of a function of funcMap() with the codec's own answer for the same input *)
+Inductive fcall :=
+  | FToYaml (v : val) (codec : string + string) (got : string)
+  | FToYamlPretty (v : val) (codec : string + string) (got : string)
+  | FToJson (v : val) (codec : string + string) (got : string)
+  | FToToml (v : val) (buf : string) (err : option string) (got : string)
+  | FFromMap (which : nat) (s : string) (cm : option vmap) (ce : option string) (got : option val)
+        (* which: 0 fromYaml, 1 fromJson, 2 fromToml; got = None: the call panicked *)
+  | FFromList (which : nat) (s : string) (cl : option (list val)) (ce : option string) (got : val).
+        (* which: 0 fromYamlArray, 1 fromJsonArray *)
+
 Inductive case :=
+  | CTree (o : engine_opts) (c : chart) (top : vmap) (srcs : list (string * list node))
+          (otpls : list (string * (string * string * nat)))     (* allTemplates: name -> (tpl, basePath, identity class of vals), sorted by name *)
+          (oscopes : list (nat * val))                          (* identity class -> the vals map as JSON *)
+          (orender : robs)
+  | CFuncs (calls : list fcall)
   | CPipe (o : opts) (chart_name : string) (crds : list (string * string))
           (keys : list string) (render_failed : bool) (rendered : list (string * string))
           (splits : list (string * list string)) (heads : list (string * option head))
@@ -58,8 +78,77 @@ Definition result_agrees (r : result) (ob : obs) : bool :=
 (* the matcher of a CFiles case: the names the real Glob kept *)
 Definition table_match (matched : list string) (_ name : string) : bool := existsb (String.eqb name) matched.
 
+(* ---- round 4: the template set of a chart tree and Engine.render ---- *)
+
+Definition nat_aget {V} (k : nat) (l : list (nat * V)) : option V :=
+  match find (fun kv => Nat.eqb (fst kv) k) l with Some kv => Some (snd kv) | None => None end.
+
+Definition tree_ok (o : engine_opts) (c : chart) (top : vmap) (srcs : list (string * list node))
+           (otpls : list (string * (string * string * nat))) (oscopes : list (nat * val)) (orender : robs) : bool :=
+  let '(tpls, store) := all_templates c top in
+  (* the key set *)
+  list_eqb String.eqb (sort_strings (map fst tpls)) (map fst otpls) &&
+  (* text, base path and scope value of every template *)
+  forallb (fun kv =>
+             let '(k, (src, base, cls)) := kv in
+             match aget k tpls with
+             | None => false
+             | Some r =>
+                 String.eqb (r_tpl r) src && String.eqb (r_base r) base &&
+                 match sget (r_scope r) store, nat_aget cls oscopes with
+                 | Some node, Some ov => val_equiv_b (view VStr [] node) ov
+                 | _, _ => false
+                 end
+             end) otpls &&
+  (* two templates get the same map object iff the model gives them the same scope *)
+  forallb (fun kv1 =>
+             forallb (fun kv2 =>
+                        match aget (fst kv1) tpls, aget (fst kv2) tpls with
+                        | Some r1, Some r2 =>
+                            Bool.eqb (sid_eqb (r_scope r1) (r_scope r2)) (Nat.eqb (snd (snd kv1)) (snd (snd kv2)))
+                        | _, _ => false
+                        end) otpls) otpls &&
+  (* the render *)
+  match render VStr mset_t (m_parse srcs) rst (m_exec o) m_t0 rinit tpls store, orender with
+  | inr (SParse, _), RParseErr => true
+  | inr (SExec, _), RExecErr => true
+  | inl (m, _), ROut om =>
+      list_eqb pair_eqb (map (fun k => (k, match aget k m with Some s => s | None => EmptyString end)) (sort_strings (map fst m))) om
+  | _, _ => false
+  end.
+
+Definition const1 {A B} (b : B) (_ : A) : B := b.
+
+Definition opt_eqb {A} (f : A -> A -> bool) (a c : option A) : bool :=
+  match a, c with Some x, Some y => f x y | None, None => true | _, _ => false end.
+
+Definition fcall_ok (f : fcall) : bool :=
+  match f with
+  | FToYaml v codec got => String.eqb (to_yaml (const1 codec) v) got
+  | FToYamlPretty v codec got => String.eqb (to_yaml_pretty (const1 codec) v) got
+  | FToJson v codec got => String.eqb (to_json (const1 codec) v) got
+  | FToToml v buf err got => String.eqb (to_toml (const1 (buf, err)) v) got
+  | FFromMap which s cm ce got =>
+      match (match which with
+             | O => from_yaml (const1 (cm, ce)) s
+             | S O => from_json (const1 (cm, ce)) s
+             | _ => from_toml (const1 (cm, ce)) s
+             end), got with
+      | FOk v, Some g => val_equiv_b v g
+      | FPanic, None => true
+      | _, _ => false
+      end
+  | FFromList which s cl ce got =>
+      val_equiv_b (match which with
+                   | O => from_yaml_array (const1 (cl, ce)) s
+                   | _ => from_json_array (const1 (cl, ce)) s
+                   end) got
+  end.
+
 Definition case_ok (c : case) : bool :=
   match c with
+  | CTree o ch top srcs otpls oscopes orender => tree_ok o ch top srcs otpls oscopes orender
+  | CFuncs calls => forallb fcall_ok calls
   | CPipe o cn crds keys failed rendered splits heads sorted_keys ob =>
       list_eqb String.eqb (sort_templates keys) sorted_keys &&
       result_agrees (run_pipeline failed rendered splits heads o cn crds (@rev _) (@rev _) keys) ob
